@@ -703,6 +703,15 @@ func c04Disk(e *Env, root string, r *rand.Rand) []hcase {
 		cs = append(cs, hcase{Family: "shape", Name: "fifo " + op.String(), Reqs: []wire.Req{wire.P(op, "/hd/fifo/pipe"), wire.P(wire.OpStat, "/")}})
 	}
 	cs = append(cs, hcase{Family: "shape", Name: "fifo inside image tree", Reqs: []wire.Req{wire.P(wire.OpOpen, "/***DVD***/hd/fifo/dir"), wire.Read(1<<20, 0), wire.P(wire.OpOpenDir, "/hd/fifo/dir"), wire.Bare(wire.OpReadDir), wire.Bare(wire.OpRDE), wire.P(wire.OpDirSize, "/hd/fifo")}})
+	// ... and in the place of a key file, beside the image and in REDKEY
+	must(os.MkdirAll(filepath.Join(ff, "PS3ISO"), 0o755))
+	must(os.MkdirAll(filepath.Join(ff, "REDKEY"), 0o755))
+	must(os.WriteFile(filepath.Join(ff, "PS3ISO", "adj.iso"), tree.Content(91, 20*2048), 0o644))
+	must(syscall.Mkfifo(filepath.Join(ff, "PS3ISO", "adj.dkey"), 0o644))
+	must(os.WriteFile(filepath.Join(ff, "PS3ISO", "red.iso"), tree.Content(92, 20*2048), 0o644))
+	must(syscall.Mkfifo(filepath.Join(ff, "REDKEY", "red.dkey"), 0o644))
+	cs = append(cs, hcase{Family: "shape", Name: "fifo as adjacent key file", Reqs: []wire.Req{wire.P(wire.OpOpen, "/hd/fifo/PS3ISO/adj.iso"), wire.Read(4096, 0), wire.P(wire.OpStat, "/")}})
+	cs = append(cs, hcase{Family: "shape", Name: "fifo as REDKEY key file", Reqs: []wire.Req{wire.P(wire.OpOpen, "/hd/fifo/PS3ISO/red.iso"), wire.Read(4096, 0), wire.P(wire.OpStat, "/")}})
 	cs = append(cs, hcase{Family: "shape", Name: "fifo as PARAM.SFO", Reqs: []wire.Req{wire.P(wire.OpOpen, "/***PS3***/hd/fifo/game"), wire.Read(4096, 0)}})
 	// symlink loops for dir-size / listing / image scan
 	lp := filepath.Join(hd, "loop")
@@ -872,6 +881,7 @@ func C04(e *Env) {
 	run.Sample(trimCase(streams[0]))
 	run.Sample(trimCase(geometry[0]))
 	c04ManyClients(e, root)
+	c04HugeMember(e)
 	c04CLI(e, root)
 	run.Assume("workers run under ulimit -v 8 GiB: stands in for a machine with less memory than this 62 GiB host; count-driven allocations that would exhaust such a machine show up as fatal out-of-memory crashes")
 }
@@ -950,6 +960,56 @@ func c04ManyClients(e *Env, root string) {
 			victim.Close()
 		}
 		p.Stop()
+	}
+}
+
+// c04HugeMember: "content of files or directories under the root" includes sizes. A sparse member of
+// 2^63-1 bytes (tmpfs, xfs, btrfs take it; ext4 stops at 16 TiB, then /dev/shm is used) must lead to an
+// error or to an image, not to an allocation without bound. The image is created in a child process
+// under an address-space cap (what OPEN of the ***DVD*** path does in the server), and by make-iso.
+func c04HugeMember(e *Env) {
+	run := e.Run
+	for hi, sizes := range [][]int64{{1<<63 - 1}, {1<<63 - 2048, 4096}, {1 << 62, 1 << 62}} {
+		var dir string
+		for _, base := range []string{e.Scratch, "/dev/shm"} {
+			d, err := os.MkdirTemp(base, "verif-c04-huge-")
+			if err != nil {
+				continue
+			}
+			defer os.RemoveAll(d)
+			ok := true
+			must(os.MkdirAll(filepath.Join(d, "tree"), 0o755))
+			for i, sz := range sizes {
+				f, err := os.Create(filepath.Join(d, "tree", fmt.Sprintf("m%d.bin", i)))
+				must(err)
+				if f.Truncate(sz) != nil {
+					ok = false
+				}
+				f.Close()
+			}
+			if ok {
+				dir = d
+				break
+			}
+		}
+		if dir == "" {
+			run.Count("huge_member_not_creatable_here", 1)
+			continue
+		}
+		run.Eval(1)
+		run.Sig("huge member %d", hi)
+		wit := map[string]any{"member_sizes": sizes, "directory": dir}
+		if _, _, _, perr := libOpenImageCapped(dir, "tree"); perr != nil {
+			run.Violate("process-died", "huge-member", fmt.Sprintf("[member sizes %v] creating the image (as OPEN of the virtual path does) under a 6 GiB address-space cap: %v", sizes, perr), wit)
+		}
+		if e.Bin != "" {
+			cmd := exec.Command("/bin/sh", "-c", "ulimit -v 6291456; exec \"$0\" \"$@\"", e.Bin, "make-iso", filepath.Join(dir, "tree"), filepath.Join(dir, "out.iso"))
+			out, _ := cmd.CombinedOutput()
+			if code := cmd.ProcessState.ExitCode(); code != 0 && code != 1 || bytes.Contains(out, []byte("fatal error:")) || bytes.Contains(out, []byte("panic:")) {
+				run.Violate("cli-crash", "make-iso: huge-member", fmt.Sprintf("[member sizes %v] make-iso ended with exit code %d: %s", sizes, cmd.ProcessState.ExitCode(), firstLines(string(out), 3)), wit)
+			}
+			os.Remove(filepath.Join(dir, "out.iso"))
+		}
 	}
 }
 
